@@ -85,7 +85,8 @@ def run_model(exe, cases, fuel=FUEL, case_timeout=20):
     def work(chunk):
         out = []
         def start():
-            return subprocess.Popen([exe], stdin=subprocess.PIPE, stdout=subprocess.PIPE, stderr=subprocess.DEVNULL, text=True, bufsize=1)
+            return subprocess.Popen([exe], stdin=subprocess.PIPE, stdout=subprocess.PIPE, stderr=subprocess.DEVNULL, text=True, bufsize=1,
+                                    preexec_fn=lmmx.lmmm._big_stack)
         pr = start()
         try:
             for line in chunk:
@@ -604,7 +605,7 @@ FINDINGS = {
 }
 
 # how the backends are known to fail on programs that only the (unsound) real checker accepts
-FAILURE_SIGNATURES = (r"range end index \d+ out of range for slice|value (reg\(\d+\)|extfun .*) not found|Invalid indirect callable|"
+FAILURE_SIGNATURES = (r"range (end|start) index \d+ out of range for slice|value (reg\(\d+\)|extfun .*) not found|Invalid indirect callable|"
                       r"invalid number of return value|Failed to load WASM module|Failed to call function|^crash:|value constructor .* not found|value function \d+ not found|called `Option::unwrap\(\)` on a `None` value")
 
 TOLERATED = {
